@@ -158,7 +158,7 @@ func (b *exponentialPolicy) New() Policy {
 	return &exponentialPolicy{
 		initialInterval: b.initialInterval,
 		factor:          b.factor,
-		currentInterval: b.currentInterval,
+		currentInterval: b.initialInterval,
 	}
 }
 
